@@ -1214,4 +1214,18 @@ def extract_default(
         if isinstance(_param["default"], str) and _param["default"].startswith("lambda"):
             pass
         if not code_quoted(_param["default"]) or _param["default"][""")]),
+    # ------------------------------------------------------------------ SCAN-END (C17, C01, C08)
+    dict(id="scanend-sum-of-all-brackets", kind=B, props=["C17", "C08"], expect="SCAN-END", edits=[("defaults_utils.py",
+         """            and par["{"] == par["}"]
+            and par["["] == par["]"]
+            and par["("] == par[")"]""", """            and not sum(par.values())""")]),
+    dict(id="scanend-no-quote-state", kind=B, props=["C17", "C01"], expect="SCAN-END", edits=[("defaults_utils.py",
+         """        elif ch in frozenset(("'", '"')) and not default.strip():""", """        elif ch in frozenset(("'", '"')) and default.strip():""")]),
+    dict(id="scanend-digit-lookahead-dropped", kind=B, props=["C17"], expect="SCAN-END", edits=[("defaults_utils.py",
+         """            and (idx == (sub_l_len - 1) or not (sub_l[idx + 1]).isdigit())
+""", "")]),
+    dict(id="scanend-depth-counter", kind=N, props=["C17", "C08"], expect="silent", edits=[("defaults_utils.py",
+         """            and par["{"] == par["}"]
+            and par["["] == par["]"]
+            and par["("] == par[")"]""", """            and par["{"] + par["["] + par["("] == par["}"] + par["]"] + par[")"]""")]),
 ]
